@@ -89,6 +89,9 @@ def _classify(out):
 
 def run_condition(cfg):
     path, fn, line, timeout = cfg["path"], cfg["fn"], cfg["line"], cfg["timeout"]
+    if "_libs.ensure()" in open(path).read() and not os.environ.get("VERIF_LIBDIR"):
+        from . import replaylibs
+        os.environ["VERIF_LIBDIR"] = replaylibs.build()
     recs = []
     out, dt = _crosshair(path, line, timeout)
     v, detail = _classify(out)
